@@ -7,6 +7,7 @@
          variable.value = input_values[:, index]                    (per-variable assignment through the clipping setter)
      engine.process()                                               (vectorised Engine.process, Model/Batch.v)
      values = [engine.input_values]? + [engine.output_values]?    Batch.input_values_get / output_values_get
+       (one row of output values broadcast to every input row)      broadcast_outputs
      np.savetxt(np.hstack(values), fmt, delimiter, header)        hstack_values, then Fld.header_line / Fld.line
 
    and the row-by-row reading `write_engine_rows` of the same export: the scalar `Engine.process` (Model/Engine.v) on
@@ -44,12 +45,24 @@ Section FldEngine.
     | Some _, Some _ => Err EValue                               (* arrays of different numbers of dimensions *)
     end.
 
+  (* repaired code: `if output_values.ndim == 2 and output_values.shape[0] != input_values.shape[0]:
+                       output_values = np.broadcast_to(output_values, (input_values.shape[0], output_values.shape[1]))`
+     (every output value 0-d: ONE row of output values is repeated for every row of input values) *)
+  Definition broadcast_outputs (k : nat) (a : arr T) : result (arr T) :=
+    match a with
+    | Mat rows =>
+        if Nat.eqb (length rows) k then Ok a
+        else match rows with [r] => Ok (Mat (repeat r k)) | _ => Err EValue end   (* cannot broadcast (j, m) to (k, m) *)
+    | _ => Ok a
+    end.
+
   (* the matrix handed to numpy.savetxt *)
   Definition engine_matrix (x : exporter) (e : engine T) (input_values : list (list T)) : result (list (list T)) :=
     let n := length (e_inputs e) in
     do st <- process_batch_vars (restart e) (columns n (used_rows n input_values));
     do ins <- (if x_inputs x then do a <- input_values_get st; Ok (Some a) else Ok None);
-    do outs <- (if x_outputs x then do a <- output_values_get st; Ok (Some a) else Ok None);
+    do outs <- (if x_outputs x then do a <- output_values_get st; do b <- broadcast_outputs (length input_values) a; Ok (Some b)
+                else Ok None);
     hstack_values ins outs.
 
   Definition print_matrix (x : exporter) (e : engine T) (m : list (list T)) : string :=
